@@ -351,21 +351,21 @@ func requireDeps(P *Program, R *Report, rule, constructPrefix string, fn *ssa.Fu
 func nonErrorReturnValues(fn *ssa.Function, idx, errIdx int) []ssa.Value {
 	var out []ssa.Value
 	for _, r := range returnsOf(fn) {
-		if idx >= len(r.Results) {
+		if idx >= retCount(r) {
 			continue
 		}
-		if errIdx >= 0 && errIdx < len(r.Results) {
-			if _, isMI := r.Results[errIdx].(*ssa.MakeInterface); isMI {
+		if errIdx >= 0 && errIdx < retCount(r) {
+			if _, isMI := retValue(r, errIdx).(*ssa.MakeInterface); isMI {
 				continue
 			}
-			if c, ok := r.Results[errIdx].(*ssa.Call); ok && nonNilErrCalls[calleeName(c)] {
+			if c, ok := retValue(r, errIdx).(*ssa.Call); ok && nonNilErrCalls[calleeName(c)] {
 				continue
 			}
-			if isNilConst(r.Results[idx]) {
+			if isNilConst(retValue(r, idx)) {
 				continue
 			}
 		}
-		out = append(out, r.Results[idx])
+		out = append(out, retValue(r, idx))
 	}
 	return out
 }
@@ -519,5 +519,17 @@ func notDecodableRule(P *Program, R *Report, rule string, fields [][2]string) {
 		if !found {
 			R.und(rule, c, "field found", "", "")
 		}
+	}
+}
+
+// anyOfStr combines descriptor predicates.
+func anyOfStr(ps ...func(string) bool) func(string) bool {
+	return func(d string) bool {
+		for _, p := range ps {
+			if p(d) {
+				return true
+			}
+		}
+		return false
 	}
 }
